@@ -17,7 +17,7 @@ def variants(rng, n, edges, k, quick):
     out = []
     for v in range(k):
         mode = rng.choice(['step', 'file', 'glob', 'mixed', 'mixed'])
-        kinds = [mode if mode != 'mixed' else rng.choice(['step', 'file', 'glob']) for _ in edges]
+        kinds = [mode if mode != 'mixed' else rng.choice(['step', 'file', 'glob', 'globi']) for _ in edges]
         whens = [rng.choice(['by_dependencies'] * 5 + ['always', 'always', 'never']) for _ in range(n)]
         inputs = [rng.random() < 0.3 for _ in range(n)]
         behav = []
@@ -63,12 +63,12 @@ def gen_cases(chk, quick):
     # failed upstream / always / never chains (targeted)
     for w in sc.WHENS:
         for rc0 in (0, 1):
-            for kind in ('step', 'file', 'glob'):
+            for kind in ('step', 'file', 'glob', 'globi'):
                 # s2 -> s1 -> s0 ; s0 fails or not; s1 has when=w
                 spec = sc.mk_spec(3, [(1, 0, kind), (2, 1, kind)], whens=['by_dependencies', w, 'by_dependencies'])
                 cases.append(sc.mk_case(spec, 2, [{'rc': rc0, 'sleep_ms': 60}, {'sleep_ms': 30}, {}], label='chain'))
     # outputs that do not exist before the run (first run in a fresh clone): the producer creates them
-    for kind in ('file', 'glob'):
+    for kind in ('file', 'glob', 'globi'):
         for n_cons in (1, 2):
             edges = [(i, 0, kind) for i in range(1, n_cons + 1)]
             spec = sc.mk_spec(n_cons + 1, edges)
